@@ -37,6 +37,7 @@ type VPCase struct {
 	Ptr   bool              `json:"ptr"`      // vnest: the nested member is a pointer to a struct
 	X     string            `json:"nx"`       // vnest: absent | 0 | 5 (the nested struct's only field)
 	VArg  string            `json:"varg"`     // missing: "" = no validate argument, "-" = bare `validate` (struct validation), else the constraints
+	Nest  bool              `json:"nest"`     // expr: every placeholder ${a} is written with a computed key, ${${ka}} (ka: a), i.e. nested inside the expression
 	Opt   bool              `json:"opt"`      // validate / vslice: the point also says required=false (a bound value is validated all the same)
 }
 type VPCons struct {
@@ -233,11 +234,18 @@ func runVP(c *VPCase) map[string]any {
 		}
 	case "expr":
 		doc := fmt.Sprintf("a: %s\nb: %s\n", c.Cfg["a"], c.Cfg["b"])
+		text := c.Text
+		if c.Nest {
+			// the same expression with computed keys: the inner placeholder is resolved first, then the outer one, then the
+			// expression is evaluated - the result is the same
+			doc += "ka: a\nkb: b\n"
+			text = strings.ReplaceAll(strings.ReplaceAll(text, "${a}", "${${ka}}"), "${b}", "${${kb}}")
+		}
 		et := vpTypes["any"]
 		if t, known := vpTypes[c.FType]; known && c.FType != "" {
 			et = t // a numeric result bound into a sized / unsigned / float / pointer field
 		}
-		ok, val, p := bindOnce(et, fmt.Sprintf(`value:%q`, "#{"+c.Text+"}"), doc)
+		ok, val, p := bindOnce(et, fmt.Sprintf(`value:%q`, "#{"+text+"}"), doc)
 		got := "err"
 		if ok {
 			got = val[strings.Index(val, ":")+1:]
@@ -247,6 +255,7 @@ func runVP(c *VPCase) map[string]any {
 			}
 		}
 		out["text"], out["cfg"], out["want"], out["got"], out["panic"], out["ftype"] = c.Text, c.Cfg, c.Val, got, p, c.FType
+		out["nest"] = c.Nest
 	case "missing":
 		var tag string
 		opt := ""
